@@ -338,4 +338,31 @@ func init() {
 			return o.Probes["saveload"]+o.Probes["load-returned-an-error-on-a-faulty-stream"] > 0
 		},
 	})
+	// C12 (concurrent form): whatever the interleaving, the expiration and refresh time a table node
+	// ends with must be (clock sample of an operation that could have set it) + (calculator duration
+	// for it) - rule deadline.unexplained-* in conc_deadline.go. Two engines: expiry (all policies,
+	// clock steps, SetExpiresAfter, readers racing writers) and refresh (reloads on asynchronous
+	// executors that succeed, fail and stall, SetRefreshableAfter).
+	c12exp := &ConcOpts{
+		AimAdvance: true, TinyP: 6,
+		Profile: Profile{Prop: "C12", ForceExp: true, NoRef: true, Keys: [2]int{1, 5}},
+		OpW: zeroExcept(map[string]int{"set": 22, "setifabsent": 6, "get": 14, "getentry": 4, "compute": 6, "computeifabsent": 4, "computeifpresent": 4,
+			"invalidate": 4, "load": 6, "bulkget": 2, "advance": 12, "setexpires": 6, "cleanup": 2}),
+		Tasks: [2]int{2, 4}, OpsPer: [2]int{3, 16}, Prefill: [2]int{0, 4},
+		Executors: []string{"default", "queued", "sync"},
+		NonTrivial: func(o *ConcOutcome) bool { return o.Switches > 4 && o.Probes["final-expiry-deadlines-judged"] > 0 },
+	}
+	Props["C12"].Engines = append(Props["C12"].Engines, &concEngine{opts: c12exp})
+	Props["C12"].Conc = c12exp
+	c12ref := &ConcOpts{
+		AimAdvance: true,
+		Profile:    Profile{Prop: "C12", ForceRef: true, Keys: [2]int{1, 4}},
+		OpW: zeroExcept(map[string]int{"load": 26, "bulkget": 5, "get": 6, "set": 12, "setifabsent": 3, "compute": 4, "invalidate": 3, "advance": 14,
+			"refresh": 5, "bulkrefresh": 3, "setrefreshable": 5, "setexpires": 2}),
+		Tasks: [2]int{2, 4}, OpsPer: [2]int{3, 14}, Prefill: [2]int{1, 4},
+		Executors: []string{"default", "queued"}, AllowStall: true, StallP: 6,
+		NonTrivial: func(o *ConcOutcome) bool { return o.Switches > 4 && o.Probes["final-refresh-deadlines-judged"] > 0 },
+	}
+	Props["C12"].Engines = append(Props["C12"].Engines, &concEngine{opts: c12ref})
+
 }
